@@ -97,6 +97,8 @@ func (p *untypedParamBinder) typeForSchema(tpe, format string, items *spec.Items
 			return reflect.TypeOf(float32(0))
 		case "double":
 			return reflect.TypeOf(float64(0))
+		default:
+			return reflect.TypeOf(float64(0))
 		}
 
 	case typeArray:
